@@ -151,6 +151,13 @@ def run_model_and_steps(chk, prop, tier, pkey=None):
         run_steps2(chk, prop, tier, pk)
         run_steps3(chk, prop, tier, pk)
         run_steps4(chk, prop, tier, pk)
+    if pk in ("C04", "C06"):
+        # scans over several borders collecting (version, node) pairs vs splits, interior insert, collapse, removes (YkConc4 programs g-j)
+        for cfg in ((["g", "i"] if pk == "C04" else ["g", "h"]) if tier == "quick" else ["g", "h", "i", "j"]):
+            res = tlc("MC_Conc4", "MC_Conc4_%s.cfg" % cfg, workers=12, timeout=1500)
+            chk.add_tlc(res, "YkConc4 config %s: full scan with node-version collection over 2-3 borders vs split / collapse / insert / remove (ScanOK, NvOK, LinOK, Quiescent, Termination under WF)" % cfg)
+            if not res.ok:
+                chk.error("YkConc4 model check %s did not pass (says nothing about the code): %s" % (cfg, tlc_tail(res, 12)))
     exe = build("stepdrv", ["stepdrv.cpp"], sessions=16)
     init = {"A": "{1, 2}", "B": "{1, 2}", "C": "{1, 2}", "D": "{1}"}
     nruns = 40 if tier == "quick" else 400
@@ -326,7 +333,8 @@ def run_steps4(chk, prop, tier, pk):
         tr = os.path.join(BUILD, "traces", "step4_%s_%d.ndjson" % (pk, pi))
         open(tr, "w").write(out)
         cfg = write_cfg(os.path.join(BUILD, "cfg", "tc4_%s_%d.cfg" % (pk, pi)), constants={"F": 15, "Keys": keys, "Threads": "{0, 1, 2}", "Prog": "<- ProgT",
-                        "Init1": "{2}", "Init2": "{18}", "UNLOCK_BEFORE_PARENT": "FALSE", "NO_INS_ON_INSERT": "FALSE", "NO_INS_ON_DELETE": "FALSE"},
+                        "Init1": "{2}", "Init2": "{18}", "UNLOCK_BEFORE_PARENT": "FALSE", "NO_INS_ON_INSERT": "FALSE", "NO_INS_ON_DELETE": "FALSE",
+                        "SCAN_NO_FINAL": "FALSE", "SCAN_NO_ENTRY_CHECK": "FALSE"},
                         invariants=["LinOK", "RootOpsOK", "Quiescent"], constraint="Record")
         res = tlc("TraceConc4", cfg, env={"TRACE": tr}, workers=1, timeout=600, deque=True)
         chk.add_tlc(res, "step-level conformance of split under a parent / interior insert, shift-delete / collapse vs new root, programs %s, border %d full (%d runs, %d events)" % (prog, full, 2 * nruns, len(lines)))
